@@ -14,6 +14,21 @@ import traceback
 sys.path.insert(0, os.path.dirname(os.path.dirname(os.path.abspath(__file__))))
 
 
+REPLAY_LIMIT = int(os.environ.get("VERIF_REPLAY_LIMIT", "60"))
+
+
+class ReplayHang(BaseException):
+    pass
+
+
+_TRIPPED = []
+
+
+def _on_alarm(signum, frame):
+    _TRIPPED.append(1)
+    raise ReplayHang()
+
+
 def replay(spec):
     assert "crosshair" not in sys.modules
     logging.disable(logging.CRITICAL)  # keep stdout clean; the code under test still formats its messages
@@ -29,13 +44,24 @@ def replay(spec):
                                          "None": None, "set": set, "frozenset": frozenset, "float": float,
                                          "dict": dict, "list": list, "tuple": tuple}})
             for k, v in spec["args"].items()}
+    import signal
+    signal.signal(signal.SIGALRM, _on_alarm)
+    # (repeating: code under test with a bare `except:` may swallow the first alarm)
+    signal.setitimer(signal.ITIMER_REAL, REPLAY_LIMIT, 1.0)
+    hang = "the real code did not return within %d s on this concrete input (non-termination)" % REPLAY_LIMIT
     try:
         ret = o.fn(**args)
+        if _TRIPPED:
+            return "fails", hang + " (the interrupt was swallowed by the code under test)"
+    except ReplayHang:
+        return "fails", hang
     except hlib.AssumeFailed:
         return "assume-failed", "inputs outside the obligation's assumptions"
     except Exception as e:
         tb = traceback.format_exc()
         return "fails", "raised %s: %s\n%s" % (type(e).__name__, e, tb[-1500:])
+    finally:
+        signal.setitimer(signal.ITIMER_REAL, 0)
     if ret:
         return "passes", "harness returned %r" % (ret,)
     return "fails", "harness returned %r (property violated). %s" % (ret, " | ".join(hlib.NOTES[-6:]))
